@@ -159,7 +159,12 @@ func (k *Keeper) UpdateRateLimit(ctx sdk.Context, msg *types.MsgUpdateRateLimit)
 		Flow:  &flow,
 	})
 
-	return nil
+	// the flow starts from zero again, so packets counted before the update must not be undone against it
+	if err := k.RemoveAllChannelPendingSendPackets(ctx, msg.ChannelOrClientId, msg.Denom); err != nil {
+		return err
+	}
+
+	return k.RemoveAllChannelPendingReceivePackets(ctx, msg.ChannelOrClientId, msg.Denom)
 }
 
 // Reset the rate limit after expiration
